@@ -114,12 +114,12 @@ CHECKS = {
    note=TB + " Partial: the theorem is about the model's explicit order parameter; the Go runtime's map order is sampled (Go randomises it per run). Defects found and repaired by fix: commits: named-port-on-IP error depending on rule order (list) and on policy/rule/port order (eval), two order dependences of the printed exposure connection; one recorded known finding (representative spelling)."),
  'C09': dict(
    text="PARTIAL. Byte-exact Gallina models of list txt/md/csv/json/dot, list --exposure txt/md/csv/json/dot and diff txt/md/csv/dot as functions of the API result, with machine-checked proofs that each lists every entry exactly once, that the row formats share their rows, "
-        "that the printed connection is a function of the denoted set and - injectivity - that the printed connection determines the canonical set, a printed peer determines the peer, each of list txt/md/csv/json determines the report and each of diff txt/md/csv determines the diff "
+        "that the printed connection is a function of the denoted set and - injectivity - that the printed connection determines the canonical set, a printed peer determines the peer, each of list txt/md/csv/json/dot determines the report and each of diff txt/md/csv determines the diff "
         "(on a decidable domain evaluated on every implementation result; the model's own reports are proved to lie in it); "
         "on every run the real formatter's bytes are compared with the model applied to the real API result in all 14 command/format combinations, and every format is also parsed back and compared with the API result and with every other format.",
    design_ref='DESIGN.md section 6 / C09',
    technique='Coq format models (byte-exact) compared with the implementation + proofs of row exactness and of injectivity of the rendering + parse-back of every format',
-   note=TB + " Partial: injectivity is not proved for the dot outputs and the exposure sections (byte-exact models and parse-back); encoding/json and encoding/csv are modelled on the alphabet the analysis produces; a printed exposure connection is taken from ConnectionSet.String (modelled in ConnSet.v, compared by C11/C06) and checked against ProtocolsAndPortsMap()."),
+   note=TB + " Partial: injectivity is not proved for the diff dot and exposure dot outputs and the exposure sections (byte-exact models and parse-back); encoding/json and encoding/csv are modelled on the alphabet the analysis produces; a printed exposure connection is taken from ConnectionSet.String (modelled in ConnSet.v, compared by C11/C06) and checked against ProtocolsAndPortsMap()."),
  'C06': dict(
    text="Machine-checked proof (Coq), on the model of exposure mode (policy pre-scan, representative peers with unique keys and refinement, evaluation against a representative peer, protected flags, entire-cluster sets, "
         "exposure_map.go): (1) whenever list produces a report, exposure mode produces the same report (the pre-scan shortcuts change no connection between real peers); (2) 'not protected' iff no NetworkPolicy governs the workload in that direction; "
